@@ -15,9 +15,31 @@ from vt.harness import Part, Report
 PROP = "C16"
 
 
+EXACT = {
+    # exactly representable matrices (zero entries are exactly 0.0, as a header written by hand has them)
+    "quarter1": [[0.0, -1.0], [1.0, 0.0]],
+    "quarter3": [[0.0, 1.0], [-1.0, 0.0]],
+    "half": [[-1.0, 0.0], [0.0, -1.0]],
+    "shear0": [[0.0, 1.0], [1.0, 1.0]],
+}
+
+
 def make_wcs(proj, theta, scale, skew, parity, crpix, crval):
     from astropy.wcs import WCS
 
+    if isinstance(theta, str):
+        w = WCS(naxis=2)
+        w.wcs.ctype = ["RA---" + proj, "DEC--" + proj]
+        w.wcs.crval = list(crval)
+        m = np.array(EXACT[theta]) @ np.diag([-scale[0] if parity < 0 else scale[0], scale[1]])
+        if skew:
+            # CDELT + PC form instead of a CD matrix
+            w.wcs.cdelt = [scale[0], scale[1]]
+            w.wcs.pc = np.array(EXACT[theta]) @ np.diag([-1.0 if parity < 0 else 1.0, 1.0])
+        else:
+            w.wcs.cd = m
+        w.wcs.crpix = list(crpix)
+        return w
     w = WCS(naxis=2)
     w.wcs.ctype = ["RA---" + proj, "DEC--" + proj]
     w.wcs.crval = list(crval)
@@ -70,7 +92,7 @@ def case(job):
         w_, h_ = size
         crpix = {"centre": ((w_ + 1) / 2.0, (h_ + 1) / 2.0), "corner": (1.0, 1.0), "outside-a": (-20.0, 3.0 * h_), "outside-b": (2.0 * w_, -5.0)}[crpix_kind]
         cfg = {"proj": proj, "theta": theta, "scale": scale, "skew": skew, "parity_in": parity, "crpix": crpix_kind, "crval": crval, "size": size, "kind": kind}
-        part.case(nontrivial=(theta != 0 or skew != 0 or crpix_kind != "centre"))
+        part.case(nontrivial=(isinstance(theta, str) or theta != 0 or skew != 0 or crpix_kind != "centre"))
 
         def bad(clause, detail):
             part.violation("%s/%s" % (clause, kind), "%r: %s" % (cfg, detail), cfg)
@@ -80,6 +102,15 @@ def case(job):
         try:
             if kind == "image":
                 obj = Image.from_array(data.copy(), wcs=wcs.deepcopy(), default_format="fits")
+            elif kind == "image-pil":
+                # a bitmap loaded through PIL, whose pixel array has already been looked at
+                from PIL import Image as PI
+
+                rgb = np.stack([(data % 251), (data // 251) % 251, np.full_like(data, 9)], axis=-1).astype(np.uint8)
+                obj = Image.from_pil(PI.fromarray(rgb), wcs=wcs.deepcopy())
+                data = rgb
+                if not np.array_equal(np.asarray(obj.asarray()), rgb):
+                    bad("pil-image-data", "PIL-backed image does not return its pixels")
             elif kind == "description":
                 obj = ImageDescription(mode=ImageMode.F32, shape=(h_, w_), wcs=wcs.deepcopy())
             else:
@@ -106,8 +137,8 @@ def case(job):
             if d.max() > 1e-9:
                 k = int(np.argmax(d))
                 bad("pixel-moved-on-sky", "pixel moved by %.3g deg (max over %d pixels)" % (d.max(), ok.sum()))
-        if kind == "image":
-            if not np.array_equal(obj.asarray(), data[::-1]):
+        if kind in ("image", "image-pil"):
+            if not np.array_equal(np.asarray(obj.asarray()), data[::-1]):
                 bad("rows-not-reversed", "data after flip is not the row-reversed input")
         # double flip is the identity
         try:
@@ -117,7 +148,7 @@ def case(job):
                 bad("double-flip-parity", "parity after two flips %r" % obj.get_parity_sign())
             if ok.any() and sep_deg(ra0[ok], dec0[ok], ra2[ok], dec2[ok]).max() > 1e-9:
                 bad("double-flip-not-identity", "two flips move pixels on the sky")
-            if kind == "image" and not np.array_equal(obj.asarray(), data):
+            if kind in ("image", "image-pil") and not np.array_equal(np.asarray(obj.asarray()), data):
                 bad("double-flip-data", "two flips do not restore the data")
             # ensure_negative_parity: yields -1 from both starting parities, idempotent, sky-preserving
             obj.ensure_negative_parity()
@@ -130,7 +161,7 @@ def case(job):
             raf, decf = world(obj.wcs, xs.ravel(), ((h_ - 1 - ys) if flipped else ys).ravel())
             if ok.any() and max(sep_deg(ra0[ok], dec0[ok], rae[ok], dece[ok]).max(), sep_deg(ra0[ok], dec0[ok], raf[ok], decf[ok]).max()) > 1e-9:
                 bad("ensure_negative_parity-moves-pixels", "ensure_negative_parity moved pixels on the sky or is not idempotent")
-            if kind == "image" and not np.array_equal(obj.asarray(), data[::-1] if flipped else data):
+            if kind in ("image", "image-pil") and not np.array_equal(np.asarray(obj.asarray()), data[::-1] if flipped else data):
                 bad("ensure_negative_parity-data", "data not consistent with the WCS after ensure_negative_parity")
         except Exception as e:
             bad("raises:%s" % type(e).__name__, repr(e))
@@ -162,10 +193,15 @@ def run(tier, seed):
             continue  # outside the hemisphere a SIN projection can represent
         if tier == "quick" and sz == (64, 48) and (th not in (0, 45, 250) or ck == "outside-b"):
             continue
-        for kind in ("image", "description", "description-rgb"):
+        for kind in ("image", "description", "description-rgb", "image-pil"):
             if kind == "description-rgb" and (sz[0] == sz[1] or sk != 0.0):
                 continue
+            if kind == "image-pil" and (sk != 0.0 or sz == (64, 48) or ck != "centre"):
+                continue
             cases.append((proj, th, sc, sk, par_, ck, cv, sz, kind))
+    # exactly-zero matrix entries (quarter turns written as 0/+-1, a shear with a zero diagonal), as CD and as CDELT+PC
+    for proj, th, sc, form, par_, cv, sz, kind in itertools.product(projs[:1], sorted(EXACT), scales, (0.0, 1.0), (-1, 1), crvals[:2], [(2, 3), (5, 4)], ("image", "description")):
+        cases.append((proj, th, sc, form, par_, "centre", cv, sz, kind))
     n = par.ncores() * 2
     par.pmap(case, [cases[i::n] for i in range(n)], rep)
     return rep.finish()
